@@ -8,9 +8,9 @@ from impl import pipeline, recbuilder
 from props import parse_common as pc
 
 LEVEL = 'proof'
-MODULES = ['Pysmi.Props.C15']
-LAKE_TARGETS = ['Pysmi.Props.C15']
-THEOREMS = ['Pysmi.PyStr.C15_gating', 'Pysmi.PyStr.C15_normalise_idempotent', 'Pysmi.PyStr.C15_normalise_only_whitespace',
+MODULES = ['Pysmi.Props.C15', 'Pysmi.Pins.SkelC15']
+LAKE_TARGETS = ['Pysmi.Props.C15', 'Pysmi.Pins.SkelC15']
+THEOREMS = ['Pysmi.Pins.SkelC15.pin_pyblock', 'Pysmi.Pins.SkelC15.pin_pyline', 'Pysmi.PyStr.C15_gating', 'Pysmi.PyStr.C15_normalise_idempotent', 'Pysmi.PyStr.C15_normalise_only_whitespace',
             'Pysmi.PyStr.C15_py_block', 'Pysmi.PyStr.C15_py_line', 'Pysmi.PyStr.C15_py_block_needs_escaping',
             'Pysmi.PyStr.evalBody_pyblock', 'Pysmi.PyStr.evalBody_pyline',
             'Pysmi.Generated.Text.pin_pysnmpTextSites', 'Pysmi.Generated.Text.pin_pyWhitespace']
